@@ -96,6 +96,7 @@ PROPS['C02'] = m1prop('C02', 'theories/Props/C02.v', ['C02'],
 PROPS['C07'] = m1prop('C07', 'theories/Props/C07.v', ['C07', 'hang', 'panic'],
                       extra=scenario_extra(('C07-senders-vs-disconnect-deadlock', 6, 'real sockets: 4 goroutines keep sending on a charge point while the central system drops its connection 12 times; every send and the final Stop must return (F30)'),
                                             ('C07-resume-blocks-pump', 9, 'gated: a write fails and the pump sits in the application cancel callback while the connection drops and comes back; Resume must not block the pump, the endpoint keeps working'),
+                                            ('C07-pause-waits-for-taken-expiry', 29, 'gated: a request times out and the connection drops while the pump is inside the cancel callback; the disconnection is processed, the reconnected endpoint sends again (F34)'),
                                             ('C07-wakeup-lost', 28, 'gated: two clients complete a request while the pump is busy with a third: both of their queued requests are written'),
                                             ('C07-new-session-never-served', 24, 'gated: immediate reconnect of a client whose disconnection the busy pump has not handled yet; its next request is written (F13)'),
                                             ('C07-reply-racing-timeout-stall', 22, 'gated (RequestQueue.Peek held): reply and timeout of one request handled at the same time; the dispatcher goes on with the next requests (F9)'),
